@@ -1979,6 +1979,22 @@ def ref_callid(ctx: Ctx) -> RuleResult:
             r.violate(f"{f.short}: {dotted(c.func)} is given {norm_src(c.args[0])}, not the id of this call ({call_id})", f.loc(c),
                       "the hidden constant nodes of the call are registered under an id that does not contain the call's usage suffix: a "
                       "second call of the same function with a constant of that kind registers the same id again", norm_src(c)[:100])
+    # a lazy node registers the hidden constants of a call WHEN IT IS CALLED: a constructor of such a node is never handed what a
+    # maker registered for the same id (the call that follows would register `<id>>!>...` a second time: KeyError at description)
+    n_ctor = 0
+    for g in pkg_funcs(ctx):
+        for c in iter_own_nodes(g.node):
+            if not (isinstance(c, ast.Call) and (dotted(c.func) or "").split(".")[-1] == "LazyExecNode"):
+                continue
+            n_ctor += 1
+            inner = [x for k in c.keywords for x in ast.walk(k.value)
+                     if isinstance(x, ast.Call) and (dotted(x.func) or "") in ("make_args", "make_kwargs", "make_active")]
+            r.ob(not inner, {"in": g.short, "lazy node constructed with maker results": [norm_src(x)[:60] for x in inner]})
+            if inner:
+                r.violate(f"{g.short}: a LazyExecNode is constructed with {norm_src(inner[0])[:60]}", g.loc(inner[0]),
+                          "the maker registers the hidden constant node `<id>>!>..` now and the node's own call registers it again under the "
+                          "same id: describing a DAG that reaches this site with a constant of that kind raises KeyError", norm_src(c)[:120])
+    r.ob(n_ctor >= 1, {"LazyExecNode constructions seen": n_ctor})
     return r
 
 
